@@ -22,7 +22,7 @@ Qed.
 Inductive lower_eq : list layer -> list layer -> Prop :=
 | leq_nil : lower_eq [] []
 | leq_cons l l' r r' : lst l = lst l' -> lower_eq r r' -> nc_get (l :: r) = nc_get (l' :: r') ->
-                       lower_eq (l :: r) (l' :: r').
+                       vc_get (l :: r) = vc_get (l' :: r') -> lower_eq (l :: r) (l' :: r').
 
 Lemma lower_eq_refl ls : lower_eq ls ls.
 Proof. induction ls; constructor; auto. Qed.
@@ -37,13 +37,15 @@ Proof. induction 1; unfold flat in *; simpl; congruence. Qed.
 
 Lemma lower_eq_nc a b : lower_eq a b -> nc_get a = nc_get b.
 Proof. destruct 1; auto. Qed.
+Lemma lower_eq_vc a b : lower_eq a b -> vc_get a = vc_get b.
+Proof. destruct 1; auto. Qed.
 
 Lemma lower_eq_last a b d : lower_eq a b -> last a d = last b d.
 Proof.
-  induction 1 as [|l l' r r' Hl Hr IH Hn]; auto.
-  destruct Hr as [|l2 l2' r2 r2' ? ? ?].
-  - simpl in *. destruct l as [a x], l' as [b y]; simpl in *. subst.
-    destruct x, y; congruence.
+  induction 1 as [|l l' r r' Hl Hr IH Hn Hv]; auto.
+  destruct Hr as [|l2 l2' r2 r2' ? ? ? ?].
+  - simpl in *. destruct l as [a x u], l' as [b y v]; simpl in *. subst.
+    destruct x, y, u, v; congruence.
   - simpl in *. exact IH.
 Qed.
 
@@ -52,6 +54,11 @@ Proof.
   induction ls as [|l r IH]; simpl; auto.
   destruct (lnc l); simpl; auto. destruct (nc_rw r); simpl in *; auto.
 Qed.
+Lemma vc_rw_fst ls : fst (vc_rw ls) = vc_get ls.
+Proof.
+  induction ls as [|l r IH]; simpl; auto.
+  destruct (lvc l); simpl; auto. destruct (vc_rw r); simpl in *; auto.
+Qed.
 
 Lemma nc_rw_lower ls : lower_eq ls (snd (nc_rw ls)).
 Proof.
@@ -59,14 +66,19 @@ Proof.
   destruct (lnc l) eqn:E; simpl; [apply lower_eq_refl|].
   pose proof (nc_rw_fst r) as F. destruct (nc_rw r) as [v r'] eqn:R; simpl in *.
   constructor; simpl; auto.
-  rewrite E. subst v. destruct (nc_get r) eqn:G; auto.
-  symmetry. rewrite <- (lower_eq_nc _ _ IH). exact G.
+  - rewrite E. subst v. destruct (nc_get r) eqn:G; auto.
+    symmetry. rewrite <- (lower_eq_nc _ _ IH). exact G.
+  - rewrite (lower_eq_vc _ _ IH). reflexivity.
 Qed.
-
-Lemma nc_rw_lst ls : map lst (snd (nc_rw ls)) = map lst ls.
+Lemma vc_rw_lower ls : lower_eq ls (snd (vc_rw ls)).
 Proof.
-  induction ls as [|l r IH]; simpl; auto.
-  destruct (lnc l); simpl; auto. destruct (nc_rw r); simpl in *. congruence.
+  induction ls as [|l r IH]; simpl; [constructor|].
+  destruct (lvc l) eqn:E; simpl; [apply lower_eq_refl|].
+  pose proof (vc_rw_fst r) as F. destruct (vc_rw r) as [v r'] eqn:R; simpl in *.
+  constructor; simpl; auto.
+  - rewrite (lower_eq_nc _ _ IH). reflexivity.
+  - rewrite E. subst v. destruct (vc_get r) eqn:G; auto.
+    symmetry. rewrite <- (lower_eq_vc _ _ IH). exact G.
 Qed.
 
 (* ---- frames ---- *)
@@ -108,7 +120,7 @@ Qed.
 Lemma frameP_put s t rest k v :
   lay s = t :: rest -> frameP t rest (ntf s) (set_lay s (put_top k v (lay s))).
 Proof.
-  intros H. rewrite H. simpl. exists (mkL ((k, v) :: lst t) (lnc t)), rest, [(k, v)], [].
+  intros H. rewrite H. simpl. exists (mkL ((k, v) :: lst t) (lnc t) (lvc t)), rest, [(k, v)], [].
   rewrite app_nil_r. repeat split; auto. apply lower_eq_refl.
 Qed.
 
@@ -129,7 +141,7 @@ Proof. unfold set_bal, put_top. eexists. split; [reflexivity|]. simpl. eexists [
 
 (* entering and leaving a (possibly layered) frame *)
 Definition entered (w : bool) (t : layer) (rest : list layer) : layer * list layer :=
-  if w then (mkL [] None, t :: rest) else (t, rest).
+  if w then (mkL [] None None, t :: rest) else (t, rest).
 
 Lemma enter_lay w s t rest :
   lay s = t :: rest -> lay (enter w s) = fst (entered w t rest) :: snd (entered w t rest) /\ ntf (enter w s) = ntf s
@@ -166,6 +178,54 @@ Proof.
   - destruct (nc_rw rest) as [x r'] eqn:R. simpl.
     eexists _, r'. split; [reflexivity|]. split; auto.
     pose proof (nc_rw_lower rest) as L. rewrite R in L. exact L.
+Qed.
+Lemma nc_set_vc t rest v : vc_get (nc_set v (t :: rest)) = vc_get (t :: rest).
+Proof.
+  unfold nc_set. simpl. destruct (lnc t) eqn:E; simpl; auto.
+  pose proof (nc_rw_lower rest) as L. destruct (nc_rw rest) as [x r'] eqn:R. simpl in *.
+  rewrite (lower_eq_vc _ _ L). reflexivity.
+Qed.
+Lemma vc_set_nc t rest v : nc_get (vc_set v (t :: rest)) = nc_get (t :: rest).
+Proof.
+  unfold vc_set. simpl. destruct (lvc t) eqn:E; simpl; auto.
+  pose proof (vc_rw_lower rest) as L. destruct (vc_rw rest) as [x r'] eqn:R. simpl in *.
+  rewrite (lower_eq_nc _ _ L). reflexivity.
+Qed.
+Lemma vc_set_get t rest v : vc_get (vc_set v (t :: rest)) = Some v.
+Proof. unfold vc_set. simpl. destruct (lvc t); simpl; auto. destruct (vc_rw rest); reflexivity. Qed.
+Lemma nc_set_get t rest v : nc_get (nc_set v (t :: rest)) = Some v.
+Proof. unfold nc_set. simpl. destruct (lnc t); simpl; auto. destruct (nc_rw rest); reflexivity. Qed.
+
+Lemma vc_set_frame t rest v :
+  exists t' rest', vc_set v (t :: rest) = t' :: rest' /\ lst t' = lst t /\ lower_eq rest rest'.
+Proof.
+  unfold vc_set. simpl. destruct (lvc t) eqn:E; simpl.
+  - eexists _, rest. split; [reflexivity|]. split; auto. apply lower_eq_refl.
+  - destruct (vc_rw rest) as [x r'] eqn:R. simpl.
+    eexists _, r'. split; [reflexivity|]. split; auto.
+    pose proof (vc_rw_lower rest) as L. rewrite R in L. exact L.
+Qed.
+
+Lemma apply_eff_frame e t rest : exists t', apply_eff e (t :: rest) = t' :: rest /\ exists new, lst t' = new ++ lst t.
+Proof. unfold apply_eff. eexists. split; [reflexivity|]. simpl. eexists. reflexivity. Qed.
+
+Lemma neo_state_frame cid to amt s1 t0 r0 :
+  lay s1 = t0 :: r0 -> frameP t0 r0 (ntf s1) (neo_state cid to amt s1).
+Proof.
+  intros E1. unfold neo_state. rewrite E1.
+  destruct (apply_eff_frame (neo_eff cid to amt) t0 r0) as (t1 & A1 & new & A2). rewrite A1.
+  destruct ((cid =? to) || (amt =? 0)).
+  - exists t1, r0, new, [EvTN cid to amt]. simpl. repeat split; auto. apply lower_eq_refl.
+  - destruct (vc_set_frame t1 r0 1) as (t2 & r2 & V1 & V2 & V3). rewrite V1.
+    exists t2, r2, new, [EvTN cid to amt]. simpl. repeat split; auto. congruence.
+Qed.
+
+Lemma mint_state_frame a d s t0 r0 :
+  lay s = t0 :: r0 -> frameP t0 r0 (ntf s) (mint_state a d s).
+Proof.
+  intros E. unfold mint_state. destruct (d =? 0); [apply frameP_refl; auto|]. rewrite E.
+  destruct (apply_eff_frame (mint_eff a d) t0 r0) as (t1 & A1 & new & A2). rewrite A1.
+  exists t1, r0, new, [EvT NIL a d]. simpl. repeat split; auto. apply lower_eq_refl.
 Qed.
 
 Lemma move_state_frame cid to amt s1 t0 r0 :
@@ -243,7 +303,7 @@ Qed.
 
 Lemma exec_frame pol p : forall cid fl it, framed (exec pol p cid fl it).
 Proof.
-  induction p as [| | | | | |to amt cb IHcb| |p1 p2 IHp1 IHp2|c rf body IHbody|b c f IHb IHc IHf| |] using prog_ind'; intros cid cf it s t rest H; simpl.
+  induction p as [| | | | | |to amt cb IHcb|to amt cb IHcb| |p1 p2 IHp1 IHp2|c rf body IHbody|b c f IHb IHc IHf| |] using prog_ind'; intros cid cf it s t rest H; cbn [exec].
   - apply frameP_refl; auto.
   - case_if; simpl; [apply frameP_put; auto|eapply below_self; eauto].
   - case_if; simpl; [apply frameP_put; auto|eapply below_self; eauto].
@@ -272,6 +332,33 @@ Proof.
       * eapply unload_below. eapply frame_below_trans; [exact F3'|].
         intros t1 rest1 L1. rewrite G1 in L1. inv L1. exact B.
     + simpl. apply unload_frame; auto.
+  - (* MoveNeo *)
+    case_if; simpl; [|eapply below_self; eauto]. cbv zeta.
+    set (w := wrapped it cf).
+    destruct (enter_lay w s t rest H) as (E1 & E2 & E3).
+    set (t0 := fst (entered w t rest)) in *. set (r0 := snd (entered w t rest)) in *.
+    case_if.
+    { simpl. apply unload_frame; auto. fold t0 r0. rewrite <- E2. apply frameP_refl; auto. }
+    pose proof (neo_state_frame cid to amt _ _ _ E1) as F3. rewrite E2 in F3.
+    set (d1 := sval _ (kClaim cid)). set (d2 := neo_d2 cid to amt _).
+    assert (MINT : forall s4, frameP t0 r0 (ntf s) s4 -> frameP t0 r0 (ntf s) (mint_state to d2 (mint_state cid d1 s4))).
+    { intros s4 F4. eapply frameP_trans; [exact F4|]. intros t1 r1 L1.
+      eapply frameP_trans; [apply mint_state_frame; exact L1|]. intros t2 r2 L2. apply mint_state_frame; exact L2. }
+    case_if.
+    + pose proof F3 as F3'. destruct F3 as (t3 & r3 & new3 & newn3 & G1 & G2 & G3 & G4).
+      pose proof (IHcb to fAll false _ _ _ G1) as B.
+      assert (TR : forall s4, frameP t3 r3 (ntf (neo_state cid to amt (enter w s))) s4 -> frameP t0 r0 (ntf s) s4).
+      { intros s4 F4. eapply frameP_trans; [exact F3'|]. intros t1 rest1 L1. rewrite G1 in L1. inv L1. exact F4. }
+      destruct (exec pol cb to fAll false _) as [s4|s4|s4]; simpl in B.
+      * case_if; simpl.
+        -- eapply unload_below. eapply frame_below. apply TR. exact B.
+        -- apply unload_frame; auto.
+      * eapply unload_below. eapply frame_below. apply TR. exact B.
+      * eapply unload_below. eapply frame_below_trans; [exact F3'|].
+        intros t1 rest1 L1. rewrite G1 in L1. inv L1. exact B.
+    + case_if; simpl.
+      * eapply unload_below. eapply frame_below. exact F3.
+      * apply unload_frame; auto.
   - (* SetFee *)
     case_if; simpl; [|eapply below_self; eauto].
     set (w := wrapped it cf).
